@@ -204,6 +204,18 @@ def check_cli(cr, ctx):
     if "manual_breaks" in info and (info["manual_breaks"], info["manual_joins"]) != exp[1:]:
         ctx.violation("yaml-totals-differ", f"info.yaml {info['manual_breaks']}/{info['manual_joins']} vs {exp[1:]}", case)
         return
+    # one assembly prefix in, no haplotype assemblies out: every break is a break of the primary assembly
+    # ((input - primary) & (input - output) = input - output), so the report has a Primary entry that says so
+    names = [n for n, _ in out]
+    plain_in = not any(re.match(r"^[^_]+_.+_\d+$", sc[0]) for sc in (cr["input"]["scaffolds"] if isinstance(cr["input"], dict) else cr["input"]))
+    prim = f"out.1.primary.curated.{fmt}"
+    plain_out = all(n == prim or n in (f"out.1.additional_haplotigs.curated.{fmt}", f"out.1.contaminants.{fmt}", f"out.1.falseduplicates.{fmt}") for n in names)
+    if plain_in and plain_out and exp[1] > 0 and any(n == prim and scs for n, scs in out):
+        ctx.count("cli:single-prefix:primary-entry-checked")
+        ent = (info.get("assemblies") or {}).get("Primary")
+        if not isinstance(ent, dict) or ent.get("manual_breaks") != exp[1]:
+            ctx.violation("yaml-primary-entry-missing-or-differs", f"{exp[1]} breaks, all of the primary assembly, but info.yaml assemblies = {info.get('assemblies')}", case)
+            return
     ctx.count("cli:ok")
 
 
